@@ -23,11 +23,17 @@ pub struct ChunkedReader {
     next: usize,
     budget: Option<usize>, // bytes the source can still deliver
     kind: io::ErrorKind,   // the kind of error the source fails with once the budget is spent
+    interrupt: bool,       // every delivery is preceded by one transient ErrorKind::Interrupted (EINTR), also the end of the stream
+    interrupted: bool,
 }
 
 impl ChunkedReader {
     pub fn new(data: Vec<u8>, sched: Vec<usize>, fail_at: Option<usize>) -> Self {
-        Self { data, pos: 0, end: 0, sched, next: 0, budget: fail_at, kind: io::ErrorKind::Other }
+        Self { data, pos: 0, end: 0, sched, next: 0, budget: fail_at, kind: io::ErrorKind::Other, interrupt: false, interrupted: false }
+    }
+    pub fn with_interrupts(mut self, on: bool) -> Self {
+        self.interrupt = on;
+        self
     }
     pub fn with_kind(mut self, kind: io::ErrorKind) -> Self {
         self.kind = kind;
@@ -50,6 +56,12 @@ impl BufRead for ChunkedReader {
         if self.end > self.pos {
             return Ok(&self.data[self.pos..self.end]);
         }
+        if self.interrupt && !self.interrupted {
+            // a signal arrived: nothing is lost, the caller is expected to try again
+            self.interrupted = true;
+            return Err(io::Error::new(io::ErrorKind::Interrupted, "interrupted"));
+        }
+        self.interrupted = false;
         let left = self.data.len() - self.pos;
         let want = if self.next < self.sched.len() { self.sched[self.next].max(1) } else { left };
         if self.next < self.sched.len() {
@@ -152,7 +164,7 @@ pub fn run(toks: &[&str], out: &mut String) {
         // cgeno FILE SCHED FAIL THREADS : the genotype reader built from a chunked stream, all samples, no projection
         "cgeno" => {
             let data = std::fs::read(toks[1]).expect("input file");
-            let r = ChunkedReader::new(data, parse_list(toks[2]), parse_opt(toks[3])).with_kind(parse_kind(toks[3]));
+            let r = ChunkedReader::new(data, parse_list(toks[2]), parse_opt(toks[3])).with_kind(parse_kind(toks[3])).with_interrupts(toks[3].ends_with(":intr"));
             let threads = NonZeroUsize::new(toks[4].parse().unwrap()).unwrap();
             // optional: what the caller says about the stream instead of leaving it to detection ("bgzf" / "plain": the
             // compression; "vcf" / "bcf": the format; "bgzf+vcf" etc.: both)
